@@ -5,6 +5,7 @@ A defective miniature of backup/archive.py + encryption.py in one file:
   R2  decrypt takes the nonce from [SALT_LENGTH : SALT_LENGTH + SALT_LENGTH]
   R3  manifest flag `is not None`, writer branch by truthiness
   R4  the reader asks the manifest for a key the writer never writes; the meta reader asks for `gen`
+  R6  the CR is dumped with allow_unicode=True (U+0085 written raw, folded into a space by safe_load)
   R5  the reader strips the password before decrypting, the writer encrypts with it verbatim
 """
 import io
@@ -60,7 +61,7 @@ def create_backup_archive(deployments, secrets, namespace, timestamp, encryption
         _add_bytes_to_tar(tar, "manifest.json", json.dumps(manifest).encode())
         for cr in deployments:
             name = cr["metadata"]["name"]
-            _add_bytes_to_tar(tar, f"{name}.yaml", yaml.dump(cr).encode())
+            _add_bytes_to_tar(tar, f"{name}.yaml", yaml.dump(cr, allow_unicode=True).encode())
             secret_data = secrets.get(name)
             if secret_data is not None:
                 secret_yaml = yaml.dump(secret_data).encode()
